@@ -41,6 +41,15 @@ func main() {
 		os.Exit(stressChild(os.Args[2:]))
 	case "worker":
 		workerMain()
+	case "bodies": // maintenance: print the normalised bodies the whole-body facts are compared with
+		mem := gofacts.MustLoad(os.Args[2], "cache/ttlmem.go")
+		rds := gofacts.MustLoad(os.Args[2], "cache/ttlrds.go")
+		for _, m := range []string{"Set", "Get", "Remove", "Clear", "remove", "removeTail"} {
+			fmt.Printf("mem.%s: %s\n", m, mem.Body("ttlMemCache", m))
+		}
+		for _, m := range []string{"Remove", "Clear", "key"} {
+			fmt.Printf("rds.%s: %s\n", m, rds.Body("ttlRdsCache", m))
+		}
 	default:
 		os.Exit(2)
 	}
@@ -76,8 +85,9 @@ func extract(repo, leanDir string) {
 			locks = false
 		}
 	}
-	locks = locks && has(mem.Body("ttlMemCache", "Set"), "return t.set(key, value, fns...)") &&
-		has(mem.Body("ttlMemCache", "Get"), "return t.get(key, fns...)")
+	// whole bodies, not substrings: nothing may stand between the lock prefix and the delegated call
+	locks = locks && mem.Body("ttlMemCache", "Set") == "{ t.Lock() defer t.Unlock() return t.set(key, value, fns...) }" &&
+		mem.Body("ttlMemCache", "Get") == "{ t.Lock() defer t.Unlock() return t.get(key, fns...) }"
 
 	// ---- get()
 	get := mem.Body("ttlMemCache", "get")
@@ -119,12 +129,12 @@ func extract(repo, leanDir string) {
 	case index + " " + evict + " return nil }":
 		indexOrder = "beforeEvict"
 	}
-	evictOne := has(tail, evict) && has(mem.Body("ttlMemCache", "removeTail"),
-		"var ele = t.eleList.Back() if ele == nil { return nil } var node = ele.Value.(*ttlNode) t.remove(ele, node) return node")
+	evictOne := has(tail, evict) && mem.Body("ttlMemCache", "removeTail") ==
+		"{ var ele = t.eleList.Back() if ele == nil { return nil } var node = ele.Value.(*ttlNode) t.remove(ele, node) return node }"
 
-	removeBoth := has(mem.Body("ttlMemCache", "remove"), "{ if ele != nil { t.eleList.Remove(ele) delete(t.eleHash, node.key) } }") &&
-		has(mem.Body("ttlMemCache", "Remove"), "var ele, ok = t.eleHash[key] if ok { t.remove(ele, ele.Value.(*ttlNode)) } return nil") &&
-		has(mem.Body("ttlMemCache", "Clear"), "t.eleHash = make(map[string]*list.Element) t.eleList.Init() }")
+	removeBoth := mem.Body("ttlMemCache", "remove") == "{ if ele != nil { t.eleList.Remove(ele) delete(t.eleHash, node.key) } }" &&
+		mem.Body("ttlMemCache", "Remove") == "{ t.Lock() defer t.Unlock() var ele, ok = t.eleHash[key] if ok { t.remove(ele, ele.Value.(*ttlNode)) } return nil }" &&
+		mem.Body("ttlMemCache", "Clear") == "{ t.Lock() defer t.Unlock() t.eleHash = make(map[string]*list.Element) t.eleList.Init() }"
 
 	optDefaults := has(set, "{ var o = &setOption{ttl: t.ttl} for _, fn := range fns { fn(o) } "+lookupSet) &&
 		has(get, "{ var o = &getOption{ttl: t.ttl} for _, fn := range fns { fn(o) } var ele, ok") &&
@@ -159,13 +169,14 @@ func extract(repo, leanDir string) {
 	}
 	rdsCmds := has(rset, "{ var o = &setOption{ttl: t.ttl} for _, fn := range fns { fn(o) } key = t.key(key) if o.mustNotExist { var ok, err = t.cmd.SetNX(ctx, key, value, <D>).Result() if err != nil { return err } if !ok { return ErrTTLKeyExists } return nil } var ex = <D> if o.keepTTL { ex = redis.KeepTTL } var _, err = t.cmd.Set(ctx, key, value, ex).Result() return err }") &&
 		has(rget, "{ var o = &getOption{ttl: t.ttl} for _, fn := range fns { fn(o) } key = t.key(key) var getFn = t.cmd.Get if o.removeAfterGet { getFn = t.cmd.GetDel } var v, err = getFn(ctx, key).Bytes() if err != nil { if errors.Is(err, redis.Nil) { return nil, ErrTTLKeyNotFound } return nil, err } if o.updateTTL { err = t.cmd.Expire(ctx, key, <D>).Err() if err != nil { return nil, err } } return v, nil }") &&
-		has(rds.Body("ttlRdsCache", "Remove"), "key = t.key(key) var _, err = t.cmd.Del(ctx, key).Result() return err") &&
-		has(rds.Body("ttlRdsCache", "key"), "return t.prefix + k") &&
+		rds.Body("ttlRdsCache", "Remove") == "{ key = t.key(key) var _, err = t.cmd.Del(ctx, key).Result() return err }" &&
+		rds.Body("ttlRdsCache", "key") == "{ return t.prefix + k }" &&
 		before(rget, "getFn(ctx, key).Bytes()", "t.cmd.Expire(")
 
 	// Clear: one SCAN whose *iterator* (it follows the cursor until 0) drives one DEL per key
 	rclear := rds.Body("ttlRdsCache", "Clear")
-	rdsClear := strings.HasPrefix(rclear, "{ var scanCmd = t.cmd.Scan(ctx, 0, t.prefix+\"*\", 0) var err = scanCmd.Err() if err != nil {") &&
+	rdsClear := rclear == "{ var scanCmd = t.cmd.Scan(ctx, 0, t.prefix+\"*\", 0) var err = scanCmd.Err() if err != nil { ulog.Error(\"ttlRdsCache.Clear.Scan.error\", zap.String(\"prefix\", t.prefix), zap.Error(err)) return } var iter = scanCmd.Iterator() for iter.Next(ctx) { err = t.cmd.Del(ctx, iter.Val()).Err() if err != nil { ulog.Error(\"ttlRdsCache.Clear.Del.error\", zap.String(\"key\", iter.Val()), zap.Error(err)) return } } }" &&
+		strings.HasPrefix(rclear, "{ var scanCmd = t.cmd.Scan(ctx, 0, t.prefix+\"*\", 0) var err = scanCmd.Err() if err != nil {") &&
 		has(rclear, "return } var iter = scanCmd.Iterator() for iter.Next(ctx) { err = t.cmd.Del(ctx, iter.Val()).Err() if err != nil {") &&
 		strings.Count(rclear, "t.cmd.") == 2 && strings.Count(rclear, "scanCmd.") == 2
 	b := gofacts.LeanBool
@@ -245,8 +256,66 @@ func showGet(v []byte, err error) string {
 	if err != nil {
 		return showErr(err)
 	}
-	return "val:" + string(v)
+	return "val:" + decVal(v)
 }
+
+// The oracle only needs the IDENTITY of keys and values, so script tokens are mapped to real strings here:
+// keys  k7000..k7009 -> 71-byte keys that share their first 69 bytes; k8000 -> "" (empty key); k8001.. -> keys with
+//       glob characters, blanks, a slash, 300 bytes; every other k<n> -> "k<n>";
+// values 900 -> empty value, 902 -> 70 000 bytes; every other <n> -> its decimal text.
+func realKey(tok string) string {
+	n, err := strconv.Atoi(strings.TrimPrefix(tok, "k"))
+	if err != nil {
+		return tok
+	}
+	switch {
+	case n >= 7000 && n <= 7009:
+		return "session:" + strings.Repeat("x", 60) + ":" + fmt.Sprintf("%02d", n-7000)
+	case n == 8000:
+		return ""
+	case n == 8001:
+		return "a*b"
+	case n == 8002:
+		return "a?b"
+	case n == 8003:
+		return "a[b]c"
+	case n == 8004:
+		return "with blank\tand tab"
+	case n == 8005:
+		return "dir/sub/leaf"
+	case n == 8006:
+		return strings.Repeat("long-key-", 33) + "end"
+	case n == 8007:
+		return "*"
+	}
+	return tok
+}
+
+func encVal(tok string) []byte {
+	switch tok {
+	case "900":
+		return []byte{}
+	case "902":
+		return []byte(strings.Repeat("x", 70000) + "902")
+	}
+	return []byte(tok)
+}
+
+func decVal(b []byte) string {
+	switch {
+	case len(b) == 0:
+		return "900"
+	case len(b) > 1000:
+		return strings.TrimLeft(string(b), "x")
+	}
+	return string(b)
+}
+
+var cancelledCtx = func() context.Context {
+	c, cancel := context.WithCancel(context.Background())
+	cancel()
+	return c
+}()
 
 func parseKey(s string) bool {
 	if len(s) < 2 || s[0] != 'k' {
@@ -287,6 +356,7 @@ func parseOptInt(s string) (set bool, v int64, ok bool) {
 
 type op struct {
 	kind   string // set get del clear tick race
+	cancel bool   // issued with an already cancelled context (cset / cget / cdel / cclear)
 	key    string
 	val    string
 	hasTTL bool
@@ -305,6 +375,10 @@ func parseOp(f []string) (op, bool) {
 		return o, false
 	}
 	o.kind = f[0]
+	if f[0] == "cset" || f[0] == "cget" || f[0] == "cdel" || f[0] == "cclear" {
+		f = append([]string{f[0][1:]}, f[1:]...)
+		o.kind, o.cancel = f[0], true
+	}
 	switch {
 	case f[0] == "set" && len(f) == 6:
 		if !parseKey(f[1]) || !isNat(f[2]) || (f[4] != "0" && f[4] != "1") || (f[5] != "0" && f[5] != "1") {
@@ -388,7 +462,11 @@ func canonKey(k string) string {
 }
 
 func (w *world) apply(c cache.TTLCache, o op) string {
-	key := canonKey(o.key)
+	key := realKey(canonKey(o.key))
+	ctx := ctx
+	if o.cancel {
+		ctx = cancelledCtx
+	}
 	switch o.kind {
 	case "set":
 		var fns []cache.SetOptFn
@@ -401,7 +479,7 @@ func (w *world) apply(c cache.TTLCache, o op) string {
 		if o.keep {
 			fns = append(fns, cache.WithKeepTTL())
 		}
-		return showErr(c.Set(ctx, key, []byte(o.val), fns...))
+		return showErr(c.Set(ctx, key, encVal(o.val), fns...))
 	case "get":
 		var fns []cache.GetOptFn
 		if o.rm {
@@ -541,9 +619,9 @@ func runCaseLocal(c corr.Case, stream func(string)) corr.Result {
 			}
 			fo := guarded(func() string {
 				if o.kind == "fset" {
-					return showErr(w.frg.Set(ctx, canonKey(o.key), []byte(o.val)))
+					return showErr(w.frg.Set(ctx, realKey(canonKey(o.key)), encVal(o.val)))
 				}
-				return showGet(w.frg.Get(ctx, canonKey(o.key)))
+				return showGet(w.frg.Get(ctx, realKey(canonKey(o.key))))
 			})
 			res.Hits = append(res.Hits, w.mon.foreign(o, fo)...)
 			emit(fo)
